@@ -710,6 +710,21 @@ def gen_bind():
     has_name = any(isinstance(m, ast.FunctionDef) and m.name == "_name" for m in bc.body) or \
         any("_name" in ast.unparse(s) for m in bc.body if isinstance(m, ast.FunctionDef) and m.name == "__init__" for s in m.body)
     out.append("Definition bound_callable_exposes_name : bool := %s." % ("true" if has_name else "false"))
+    # BoundCallable.__init__: update_wrapper(self, fn) copies fn.__dict__ onto self; where are the private
+    # attributes assigned relative to it?
+    init = [m for m in bc.body if isinstance(m, ast.FunctionDef) and m.name == "__init__"][0]
+    pos_wrap, pos_priv = [], []
+    for i, st in enumerate(strip_doc(init.body)):
+        src = ast.unparse(st)
+        if "update_wrapper(self, fn)" in src:
+            pos_wrap.append(i)
+        if isinstance(st, ast.Assign) and src in (N("self.__executor = executor"), N("self.__fn = fn")):
+            pos_priv.append(i)
+    if len(pos_wrap) != 1 or len(pos_priv) != 2:
+        raise Unsupported("BoundCallable.__init__: update_wrapper / private attribute assignments")
+    if not (max(pos_priv) < pos_wrap[0] or min(pos_priv) > pos_wrap[0]):
+        raise Unsupported("BoundCallable.__init__: private attributes on both sides of update_wrapper")
+    out.append("Definition private_attrs_after_wrapper : bool := %s." % ("true" if min(pos_priv) > pos_wrap[0] else "false"))
     emit("BindGen.v", "\n".join(out) + "\n")
 
 
